@@ -184,6 +184,8 @@ def run(ctx):
         specs.append(builder.gen_pattern_case(ctx.rng('pattern-up', i)))
     for i in range(ctx.n(30, 300)):
         specs.append(builder.gen_wildcard_case(ctx.rng('wildcard', i)))
+    for i in range(ctx.n(24, 240)):
+        specs.append(builder.gen_rootref_case(ctx.rng('root-ref', i)))
     reqs = []
     for i, spec in enumerate(specs):
         b = pl.Built(root / f'c{i}', spec['module'], spec)
